@@ -55,6 +55,12 @@ func (k Keeper) ProcessWager(
 		return nil, err
 	}
 
+	// a bet that no participation backs (empty queue or payout profit below one token)
+	// would be recorded with a stake that was never taken.
+	if len(fInfo.fulfillments) == 0 {
+		return nil, types.ErrInsufficientLiquidityInOrderBook
+	}
+
 	bookExposure.FulfillmentQueue = fInfo.updatedfulfillmentQueue
 	k.SetOrderBookOddsExposure(ctx, bookExposure)
 
